@@ -43,14 +43,14 @@ Proof.
   - apply IH. intros X. apply H. auto.
 Qed.
 
-Lemma in_keys_filter k (p : addr * bucket -> bool) t :
+Lemma in_keys_filter k (p : lim_addr * bucket -> bool) t :
   In k (map fst (filter p t)) -> In k (map fst t).
 Proof.
   induction t as [|e t IH]; cbn; auto.
   destruct (p e); cbn; intuition.
 Qed.
 
-Lemma nodup_filter (p : addr * bucket -> bool) t : nodup_keys t -> nodup_keys (filter p t).
+Lemma nodup_filter (p : lim_addr * bucket -> bool) t : nodup_keys t -> nodup_keys (filter p t).
 Proof.
   unfold nodup_keys. induction t as [|e t IH]; cbn; intros H; auto.
   inversion H; subst. destruct (p e); cbn; auto.
@@ -108,7 +108,7 @@ Qed.
 (* ------------------------------------------------------------------ the view of one key *)
 
 (* what one event does to the bucket of key k (None = no entry) *)
-Definition kstep (o : opts) (k : addr) (s : option bucket) (e : lev) : option bucket * option bool :=
+Definition kstep (o : opts) (k : lim_addr) (s : option bucket) (e : lev) : option bucket * option bool :=
   match e with
   | EvAllow now a n =>
       if addr_eqb (mask_addr o a) k then
@@ -147,7 +147,7 @@ Lemma kstep_untouched o k s e : touches o k e = false -> kstep o k s e = (s, Non
 Proof. destruct e; cbn; intros H; [now rewrite H | discriminate]. Qed.
 
 (* decisions for key k computed on its own bucket only *)
-Fixpoint kdec (o : opts) (k : addr) (s : option bucket) (h : list lev) : list bool :=
+Fixpoint kdec (o : opts) (k : lim_addr) (s : option bucket) (h : list lev) : list bool :=
   match h with
   | [] => []
   | e :: h' =>
@@ -202,13 +202,13 @@ Qed.
 (* ------------------------------------------------------------------ the window bound *)
 
 (* granted cost of key k in the window, computed on its own bucket *)
-Definition gainw (o : opts) (k : addr) (t0 t1 : Z) (s : option bucket) (e : lev) : Z :=
+Definition gainw (o : opts) (k : lim_addr) (t0 t1 : Z) (s : option bucket) (e : lev) : Z :=
   match e, snd (kstep o k s e) with
   | EvAllow t a n, Some true => if (t0 <=? t) && (t <=? t1) then n else 0
   | _, _ => 0
   end.
 
-Fixpoint kadm (o : opts) (k : addr) (t0 t1 : Z) (s : option bucket) (h : list lev) : Z :=
+Fixpoint kadm (o : opts) (k : lim_addr) (t0 t1 : Z) (s : option bucket) (h : list lev) : Z :=
   match h with
   | [] => 0
   | e :: h' => gainw o k t0 t1 s e + kadm o k t0 t1 (fst (kstep o k s e)) h'
@@ -230,7 +230,7 @@ Qed.
 
 Section Bound.
   Variable o : opts.
-  Variable k : addr.
+  Variable k : lim_addr.
   Let rate := o_limit o.
   Let burst := o_burst o.
   Hypothesis Hrate : 0 < rate.
@@ -507,14 +507,14 @@ Lemma mask_bits_spec w bits x : mask_bits w bits x = (x / 2 ^ (w - bits) * 2 ^ (
 Proof. unfold mask_bits. cbv zeta. now rewrite N.shiftl_mul_pow2, N.shiftr_div_pow2. Qed.
 
 Lemma unmap_spec x :
-  unmap (A6 x) = if (x / two32 =? 65535)%N then A4 (x mod two32)%N else A6 x.
+  lim_unmap (LA6 x) = if (x / two32 =? 65535)%N then LA4 (x mod two32)%N else LA6 x.
 Proof.
-  unfold unmap. rewrite N.shiftr_div_pow2. change (2 ^ 32)%N with two32.
+  unfold lim_unmap. rewrite N.shiftr_div_pow2. change (2 ^ 32)%N with two32.
   change 4294967295%N with (N.ones 32). rewrite N.land_ones. reflexivity.
 Qed.
 
 (* a v4-mapped IPv6 address ::ffff:a.b.c.d is charged to the bucket of a.b.c.d *)
-Lemma mask_mapped o x : (x < two32)%N -> mask_addr o (A6 (65535 * two32 + x)) = mask_addr o (A4 x).
+Lemma mask_mapped o x : (x < two32)%N -> mask_addr o (LA6 (65535 * two32 + x)) = mask_addr o (LA4 x).
 Proof.
   intros H. unfold mask_addr. rewrite unmap_spec.
   assert (((65535 * two32 + x) / two32 =? 65535)%N = true) as ->.
@@ -524,14 +524,14 @@ Proof.
   reflexivity.
 Qed.
 
-Lemma mask_v4_24 o x : o_v4 o = 24 -> mask_addr o (A4 x) = A4 (x / 256 * 256)%N.
+Lemma mask_v4_24 o x : o_v4 o = 24 -> mask_addr o (LA4 x) = LA4 (x / 256 * 256)%N.
 Proof.
-  intros H. unfold mask_addr, unmap, prefix_addr4. rewrite H. cbn [Z.leb Z.compare andb Pos.compare Pos.compare_cont].
+  intros H. unfold mask_addr, lim_unmap, prefix_addr4. rewrite H. cbn [Z.leb Z.compare andb Pos.compare Pos.compare_cont].
   rewrite mask_bits_spec. reflexivity.
 Qed.
 
 Lemma mask_v6_48 o x : o_v6 o = 48 -> (x / two32 <> 65535)%N ->
-  mask_addr o (A6 x) = A6 (x / 2 ^ 80 * 2 ^ 80)%N.
+  mask_addr o (LA6 x) = LA6 (x / 2 ^ 80 * 2 ^ 80)%N.
 Proof.
   intros H M. unfold mask_addr. rewrite unmap_spec.
   assert ((x / two32 =? 65535)%N = false) as -> by (apply N.eqb_neq; exact M).
@@ -553,7 +553,7 @@ Qed.
 Lemma forwards_refusal l : forwards (refusal l) = false.
 Proof. destruct l; reflexivity. Qed.
 
-(* a query the limiter refuses gets the listener's refusal reply; nothing is forwarded and the
+(* a query the limiter refuses gets the lim_listener's refusal reply; nothing is forwarded and the
    limiter is not charged any further *)
 Lemma refusal_rule r now l a hit c :
   query_cost l = Some c -> rl_is_ok (snd (rl_allow r now a c)) = false ->
@@ -566,7 +566,7 @@ Lemma answered_rule r now l a hit c :
 Proof. intros Q H. unfold accept_query. rewrite Q, H. reflexivity. Qed.
 
 (* without a global limit the acceptance decision is exactly the client limiter's decision for that address *)
-Lemma rl_allow_client o t now a n : a <> ANone ->
+Lemma rl_allow_client o t now a n : a <> LANone ->
   rl_allow (mkRl None (Some (o, t))) now a n =
   (mkRl None (Some (o, fst (lim_step o t (EvAllow now a n)))),
    match snd (lim_step o t (EvAllow now a n)) with Some false => RlClient | _ => RlOk end).
@@ -577,11 +577,11 @@ Proof. intros H. destruct a; [reflexivity|reflexivity|contradiction]. Qed.
 (* K3: burst 1000 > 60 * rate 1.  The client spends its burst at t = 0, the collector runs just after one
    minute of silence and drops the entry, the client comes back and gets a second full burst. *)
 Definition k3_opts : opts := mkOpts 1 1000 24 48.
-Definition k3_client : addr := A4 3232235777%N.                       (* 192.168.1.1 *)
+Definition k3_client : lim_addr := LA4 3232235777%N.                       (* 192.168.1.1 *)
 Definition k3_t : Z := 60 * SCALE + 1.
 Definition k3_history : list lev :=
   [EvAllow 0 k3_client 1000; EvGc k3_t; EvAllow k3_t k3_client 1000].
-Definition k3_key : addr := mask_addr k3_opts k3_client.
+Definition k3_key : lim_addr := mask_addr k3_opts k3_client.
 
 Lemma k3_witness :
   lim_sorted k3_history = true /\
